@@ -303,7 +303,11 @@ HostErr ==
 Step == /\ l <= Len(Trace)
         /\ l' = l + 1
         /\ IF R.ev = "topo" THEN TopoEv
-           ELSE IF R.ev = "skip" THEN UNCHANGED <<topo, J, leg, k, at, st, failed>>
+           ELSE IF R.ev = "skip" THEN
+                \* the combinator returned a path that cannot be put on the wire (not serializable /
+                \* not decodable): no router can accept it
+                /\ IF Prop = "C02" THEN PrintT(<<"VERIF-BAD", l, "req:combined-path-cannot-be-sent">>) ELSE TRUE
+                /\ UNCHANGED <<topo, J, leg, k, at, st, failed>>
            ELSE IF R.ev = "panic" THEN   \* the real code crashed: there is no specification action for that
                 /\ PrintT(<<"VERIF-BAD", l, "panic-in:" \o R.where>>)
                 /\ UNCHANGED <<topo, J, leg, k, at, st, failed>>
